@@ -496,8 +496,17 @@ def handleLine (t : TS) (line : String) : TS :=
     else t
   | ["backup", rc, name] =>
     let t := { t with nLifecycle := t.nLifecycle + 1 }
-    if rc != "0" then t.problem "VIOLATION[lifecycle]" s!"backup failed rc={rc}"
+    if (t.backups.any (fun p => p.1 == name)) then
+      -- the destination exists already (an earlier backup): a refusal is fine, and the earlier backup must stay as it was
+      -- (the `bcheck` that follows compares it with what it held); a success replaces it
+      if rc != "0" then t else { t with backups := (name, allEntries t.st) :: t.backups.filter (fun p => p.1 != name) }
+    else if rc != "0" then t.problem "VIOLATION[lifecycle]" s!"backup failed rc={rc}"
     else { t with backups := (name, allEntries t.st) :: t.backups.filter (fun p => p.1 != name) }
+  | ["backup", rc, _, "self"] =>
+    -- backup onto the database's own directory: must be refused; the reads, the close and the reopen that follow show
+    -- whether the source is still intact
+    let t := { t with nLifecycle := t.nLifecycle + 1 }
+    if rc == "0" then t.problem "VIOLATION[lifecycle]" "a backup of the database onto its own directory was reported as successful" else t
   | ["copy", rc, name] =>
     let t := { t with nLifecycle := t.nLifecycle + 1 }
     if rc != "0" then t.problem "VIOLATION[lifecycle]" s!"copy failed rc={rc}"
